@@ -181,6 +181,35 @@ def e2e(ctx):
                               f"a path of check_stop is stopped by an unsupported feature ({tag}) at call depth {depth} "
                               f"but the test is reported PASS without any warning",
                               {"stopper": tag, "depth": depth, "stdout": run.stdout[-600:]})
+    # an unsupported symbolic memory offset / size on one side of an equality branch on the same word: the other side pins the
+    # word to a constant (n == c), which must not make the unsupported use on THIS side look concrete
+    pinned_uses = {
+        "mload": ["MLOAD", "POP", "STOP"],
+        "mstore": [("push", 1), "SWAP1", "MSTORE", "STOP"],
+        "return-size": [("push", 0), "RETURN"],
+        "calldatacopy-dest": [("push", 4), "SWAP1", ("push", 0), "SWAP1", "CALLDATACOPY", "STOP"],
+    }
+    for use, tail in pinned_uses.items():
+        for shape in ("eq-first", "ne-first"):
+            c = rng.choice([5, 7, 64])
+            n = asm.calldata_arg(0)
+            if shape == "eq-first":      # if (n == c) stop; else use(n)
+                body = n + [("push", c), "EQ", ("ref", "pe"), "JUMPI"] + n + tail + [("label", "pe"), "STOP"]
+            else:                        # if (n != c) use(n); else stop
+                body = n + [("push", c), "EQ", "ISZERO", ("ref", "pu"), "JUMPI", "STOP", ("label", "pu")] + n + tail
+            try:
+                run = run_contract_offline(TestContract("PinT", [Fn("check_pinned(uint256 n)", body)]))
+            except Exception as e:  # noqa: BLE001
+                ctx.note(f"pinned-symbolic-use case error ({use}, {shape}): {type(e).__name__}: {e}")
+                continue
+            r = run.results[0]
+            ctx.case(("e2e-pinned-symbolic-use", use, shape))
+            ctx.count(f"e2e:pinned-symbolic-use:{use}:{shape}:exit{r.exitcode}")
+            if r.exitcode == 0 and not (warned(run, "symbolic") or warned(run, "Unsupported") or warned(run, "incomplete")):
+                ctx.violation(f"C10|e2e|clean-PASS-with-stuck-path|symbolic-{use}-beside-equality-branch|{shape}",
+                              f"check_pinned uses its argument n as a memory offset / size ({use}) on the n != {c} side of a branch; that use is "
+                              f"unsupported (symbolic) and stops the path, yet the test is reported PASS without any warning",
+                              {"use": use, "shape": shape, "c": c, "stdout": run.stdout[-600:]})
     # the SAME unsupported point reached by several tests of one contract: setUp CREATEs a helper whose deployed code is one
     # symbolic byte (init code returns the low byte of a word made by svm.createUint256, appended to the init code as a
     # constructor argument), so executing the helper stops at "symbolic opcode at pc=0"; every test that calls it must be
